@@ -147,6 +147,25 @@ Section Covers.
       rewrite Er. apply (C3 r found); [apply (getp_skipn _ d ii r Hr); lia|exact Hout|].
       apply (vm_keys_is_key f10 r found (getp_in _ _ _ Hr) Hri). apply in_or_app. left. exact Hout.
   Qed.
+
+  (* where the values come from: an included provider listed before (parameters) / after (received
+     values) the consumer that puts out exactly the remapped type *)
+  Theorem sources :
+    (forall k p t, getp f10 k = Some p -> p_include p = true -> In t (pflow p FIn) -> t <> te_noT te ->
+       exists d r, d < k /\ getp f10 d = Some r /\ p_include r = true /\ In (remap (p_downR p) t) (pflow r FOut)) /\
+    (forall k p t, getp f10 k = Some p -> p_include p = true -> In t (pflow p FRecv) -> t <> te_noT te ->
+       exists d r, k < d /\ getp f10 d = Some r /\ p_include r = true /\ In (remap (p_upR p) t) (pflow r FRet)).
+  Proof.
+    split.
+    - intros k p t Hp Hi Ht Hn.
+      destruct (covers_setup k p Hp Hi) as (Hchk & Wd & _ & Hfl).
+      destruct (included_source p FIn FOut _ t Hchk Wd Hfl Ht Hn) as (found & d & r & Ha & Hlim & Hr & Hri & Hout).
+      cbn [rmap_of] in Ha. exists d, r. unfold remap. rewrite Ha. repeat split; assumption.
+    - intros k p t Hp Hi Ht Hn.
+      destruct (covers_setup k p Hp Hi) as (Hchk & _ & Wu & Hfl).
+      destruct (included_source p FRecv FRet _ t Hchk Wu Hfl Ht Hn) as (found & d & r & Ha & Hlim & Hr & Hri & Hout).
+      cbn [rmap_of] in Ha. exists d, r. unfold remap. rewrite Ha. repeat split; assumption.
+  Qed.
 End Covers.
 
 (* for whatever Bind's selection accepts *)
@@ -190,4 +209,23 @@ Proof.
   destruct (select_covers (bc_te c) f1 funcs ii Es) as [A B]. cbv zeta in A, B. split.
   - intros k p t Hp Hi Ht Hn. destruct (A k p t Hp Hi Ht Hn) as [i Hi']. exists i. unfold sd_of. rewrite Hi'. reflexivity.
   - intros k p t Hk Hp Hi Ht Hn. destruct (B k p t Hk Hp Hi Ht Hn) as [i Hi']. exists i. unfold su_of. rewrite Hi'. reflexivity.
+Qed.
+
+Theorem select_sources te funcs1 funcs :
+  select te funcs1 = Ok funcs ->
+  (forall k p t, getp funcs k = Some p -> p_include p = true -> In t (pflow p FIn) -> t <> te_noT te ->
+     exists d r, d < k /\ getp funcs d = Some r /\ p_include r = true /\ In (remap (p_downR p) t) (pflow r FOut)) /\
+  (forall k p t, getp funcs k = Some p -> p_include p = true -> In t (pflow p FRecv) -> t <> te_noT te ->
+     exists d r, k < d /\ getp funcs d = Some r /\ p_include r = true /\ In (remap (p_upR p) t) (pflow r FRet)).
+Proof.
+  unfold select. intros H.
+  destruct (validate_chain te true (provides_returns te (map (init_marks te) funcs1))) as [f3 [e|]]; [discriminate|].
+  match type of H with
+  | match validate_chain te true (provides_returns te ?F8) with _ => _ end = _ =>
+    destruct (validate_chain te true (provides_returns te F8)) as [f10 [e|]] eqn:Ev; [discriminate|];
+    injection H as <-;
+    apply (sources te F8 f10); [|exact Ev]
+  end.
+  intros p Hp. apply in_map_iff in Hp. destruct Hp as (p0 & <- & _).
+  destruct (negb (p_excluded p0)) eqn:E; simpl; [apply negb_true_iff in E|apply negb_false_iff in E]; rewrite E; reflexivity.
 Qed.
